@@ -45,7 +45,7 @@ func Distinct(v reflect.Value) interface{} {
 		distinctValues := reflect.MakeSlice(reflect.SliceOf(typeInterface), 0, 0)
 
 		for i := 0; i < items.Len(); i++ {
-			item := jtypes.Resolve(items.Index(i))
+			item := resolveDistinctItem(items.Index(i))
 
 			key := distinctKey(item)
 			if _, ok := visited[key]; ok {
@@ -64,6 +64,20 @@ func Distinct(v reflect.Value) interface{} {
 	}
 
 	return nil
+}
+
+// resolveDistinctItem returns the value that an array item
+// holds. A function stays the pointer it is: functions are
+// equal only if they are the same object, and the copy that
+// dereferencing makes is neither comparable nor callable.
+func resolveDistinctItem(v reflect.Value) reflect.Value {
+	for v.Kind() == reflect.Interface && !v.IsNil() {
+		v = v.Elem()
+	}
+	if v.Kind() == reflect.Ptr && v.Type().Implements(jtypes.TypeCallable) {
+		return v
+	}
+	return jtypes.Resolve(v)
 }
 
 // A distinctCompositeKey is the map key used by Distinct for
@@ -148,6 +162,9 @@ func writeDistinctText(sb *strings.Builder, v reflect.Value) {
 		// -0 + 0 is +0.
 		n, _ := jtypes.AsNumber(v)
 		sb.WriteString(strconv.FormatFloat(n+0, 'g', -1, 64))
+	case v.Kind() == reflect.Ptr && v.Type().Implements(jtypes.TypeCallable):
+		// Functions are equal only if they are the same object.
+		fmt.Fprintf(sb, "function@%p", v.Interface())
 	case v.CanInterface():
 		s, err := String(v.Interface())
 		if err != nil {
